@@ -172,6 +172,99 @@ func scenario(x *explore.X) {
 	}
 }
 
+// connectViaUpstream: a CONNECT that is tunnelled through an upstream HTTP proxy is a forwarded request like any
+// other: the upstream proxy must see the client's Via chain plus this instance's element, and a chain that
+// already contains the element is refused without contacting the upstream - with and without configured
+// --connect-header / --header rules.
+func connectViaUpstream(x *explore.X) {
+	chainKind := x.ChooseFree("chain", 4) // 0 none, 1 foreign, 2 own, 3 foreign+own+later
+	connRules := x.ChooseFree("connect-header-rules", 2) == 1
+	reqRules := x.ChooseFree("header-rules", 2) == 1
+	opts := world.Options{Upstream: "http://up.test:8080"}
+	if connRules {
+		opts.ConnectHeaders = []string{"X-Conn: 1"}
+	}
+	if reqRules {
+		opts.RequestHeaders = []string{"X-Req: 1"}
+	}
+	w, err := world.Start(opts)
+	if err != nil {
+		x.Failf("harness/start", "%v", err)
+		return
+	}
+	up, _ := w.Hop("up.test:8080", nil)
+	cl, _ := w.Client()
+	cl.Send([]byte("GET http://" + originHost + "/x HTTP/1.1\r\nHost: " + originHost + "\r\n\r\n"))
+	msgs, conns, _ := up.Next()
+	if len(msgs) != 1 {
+		x.Failf("harness/warmup", "warm-up request not forwarded: client got %q", world.Clip(cl.Recv()))
+		return
+	}
+	ownElems := elems(msgs[0].Get("Via"))
+	if len(ownElems) != 1 {
+		x.Failf("via/own-element", "first forwarded request carries Via %q", ownElems)
+		return
+	}
+	own := ownElems[0]
+	tag := strings.TrimPrefix(own, "1.1 ")
+	up.Conns[conns[0]].Send([]byte("HTTP/1.1 200 OK\r\nContent-Length: 2\r\nConnection: close\r\n\r\nok"))
+	cl.Close()
+	var chain []string
+	switch chainKind {
+	case 1:
+		chain = []string{"1.1 other.example"}
+	case 2:
+		chain = []string{own}
+	case 3:
+		chain = []string{"1.0 a.example", own, "1.1 later.example"}
+	}
+	hasOwn := chainKind >= 2
+	c2, _ := w.Client()
+	var sb strings.Builder
+	sb.WriteString("CONNECT " + originHost + ":443 HTTP/1.1\r\nHost: " + originHost + ":443\r\n")
+	if len(chain) > 0 {
+		sb.WriteString("Via: " + strings.Join(chain, ", ") + "\r\n")
+	}
+	sb.WriteString("\r\n")
+	dialsBefore := len(w.Net.Dials())
+	c2.Send([]byte(sb.String()))
+	world.Settle(time.Second)
+	x.Check()
+	what := fmt.Sprintf("CONNECT through the upstream proxy with Via %q (connect-header rules: %v, header rules: %v)", chain, connRules, reqRules)
+	msgs, conns, _ = up.Next()
+	if hasOwn {
+		if len(msgs) != 0 || len(w.Net.Dials()) != dialsBefore {
+			x.Failf("loop-not-detected/connect", "%s: contains this instance's element %q but the upstream proxy was contacted", what, tag)
+		}
+		rs := httpwire.ParseResponses(c2.Recv(), []string{"CONNECT"}, false)
+		if len(rs.Msgs) != 1 || rs.Msgs[0].Status != 400 {
+			x.Failf("loop-status/connect", "%s: want 400, client got %q", what, world.Clip(c2.Recv()))
+		}
+		x.Outcome("refused-400")
+	} else {
+		if len(msgs) != 1 || msgs[0].Method != "CONNECT" {
+			x.Failf("connect-not-forwarded", "%s: the upstream proxy received %d requests; client got %q", what, len(msgs), world.Clip(c2.Recv()))
+		} else {
+			got := elems(msgs[0].Get("Via"))
+			want := append(append([]string{}, chain...), "1.1 "+tag)
+			if strings.Join(got, "|") != strings.Join(want, "|") {
+				x.Failf("via-chain/connect", "%s: the upstream proxy received Via elements %q, want %q", what, got, want)
+			}
+			up.Conns[conns[0]].Send([]byte("HTTP/1.1 200 OK\r\n\r\n"))
+		}
+		x.Outcome(fmt.Sprintf("forwarded/%d", len(chain)))
+	}
+	c2.Close()
+	if err := w.Stop(); err != nil {
+		x.Failf("shutdown", "%v", err)
+	}
+	up.Shutdown()
+	world.Settle(5 * time.Second)
+	if l := world.Leaks(); l != "" {
+		x.Failf("goroutine-leak", "%s", l)
+	}
+}
+
 // loops: actual forwarding loops of one and two instances.
 func loopScenario(x *explore.X) {
 	two := x.ChooseFree("instances-1", 2) == 1
@@ -238,12 +331,13 @@ func loopScenario(x *explore.X) {
 
 func TestC18(t *testing.T) {
 	s := explore.NewSuite(t, "C18", "exploration",
-		"Via chains of 0-3 elements drawn from 5 foreign elements (incl. same name with a different instance tag, the bare name, a comment) with this instance's own element (5 spellings: as emitted, with comment, other received-protocol) absent or at every position, in one line or split over two lines at every boundary, x request kind (absolute-form, origin-form, inside a MITM'd tunnel) x client version; deviation-bounded (D=5 quick, 7 thorough); the own element is learnt from a first forwarded request; plus real forwarding loops of one instance (upstream = itself) and two instances (A->B->A, same or different names) x version, full product; non-trivial = the chain was sent and the outcome compared; plus (concurrent-via, Engine T) ONE Via modifier used by two requests at once (5 chains x 5 chains x HTTP/1.0 or 1.1 each), via_modifier.go rebuilt with a scheduling point before every statement, every interleaving with at most 2 (quick) / 3 (thorough) preemptions: each request is refused iff its own chain contains this instance's element and otherwise leaves with its own chain plus one element")
+		"Via chains of 0-3 elements drawn from 5 foreign elements (incl. same name with a different instance tag, the bare name, a comment) with this instance's own element (5 spellings: as emitted, with comment, other received-protocol) absent or at every position, in one line or split over two lines at every boundary, x request kind (absolute-form, origin-form, inside a MITM'd tunnel) x client version; deviation-bounded (D=5 quick, 7 thorough); the own element is learnt from a first forwarded request; plus real forwarding loops of one instance (upstream = itself) and two instances (A->B->A, same or different names) x version, full product; non-trivial = the chain was sent and the outcome compared; plus (concurrent-via, Engine T) ONE Via modifier used by two requests at once (5 chains x 5 chains x HTTP/1.0 or 1.1 each), via_modifier.go rebuilt with a scheduling point before every statement, every interleaving with at most 2 (quick) / 3 (thorough) preemptions: each request is refused iff its own chain contains this instance's element and otherwise leaves with its own chain plus one element; plus (connect-via-upstream) a CONNECT tunnelled through an upstream HTTP proxy: Via chain(none, foreign, own, foreign+own+later) x configured --connect-header rules x --header rules [full product]: the upstream proxy sees chain + own element, or is not contacted and the client gets 400")
 	s.Assume = []string{"simnet models TCP", "the instance tag is read from the first forwarded request, never predicted"}
 	s.Add(explore.Scenario{Name: "chains", Remote: true, MaxDev: map[string]int{"quick": 5, "thorough": 7},
 		Run: func(x *explore.X) { world.Run(t, x, func() { scenario(x) }) }})
 	s.Add(explore.Scenario{Name: "loops", Remote: true,
 		Run: func(x *explore.X) { world.Run(t, x, func() { loopScenario(x) }) }})
+	s.Add(explore.Scenario{Name: "connect-via-upstream", Remote: true, Run: func(x *explore.X) { world.Run(t, x, func() { connectViaUpstream(x) }) }})
 	s.Add(explore.Scenario{Name: "concurrent-via", Remote: true, MaxDev: map[string]int{"quick": 2, "thorough": 3},
 		Run: func(x *explore.X) { tcore.ConcurrentVia(t, x) }})
 	s.Main()
